@@ -3,7 +3,6 @@ package props
 import (
 	"bufio"
 	"bytes"
-	"errors"
 	"fmt"
 	"io"
 
@@ -73,6 +72,9 @@ func (c06) Info() core.Info {
 func genWire(r *core.Rand, payloadLen int, pid int) Wire {
 	w := Wire{Salt: r.Intn(1000)}
 	w.Carrier = parties.Carrier{PID: pid, CC: r.Intn(16), TP: r.Chance(1, 8)}
+	if r.Chance(1, 8) {
+		w.Carrier.TSC = r.Range(1, 3) // scrambling control bits set: the payload starts where it starts
+	}
 	// sizes
 	mode := r.Intn(6)
 	for covered := 0; covered < payloadLen; {
@@ -590,8 +592,7 @@ func (c06) Exec(script interface{}, c *core.Ctx) {
 		return
 	}
 	c.Log("readpmt err=%v reads=%d pos=%d", err, sr.Calls, sr.Pos())
-	var inj *parties.InjectedErr
-	if errors.As(err, &inj) {
+	if parties.IsReaderFault(err) {
 		if sr.FirstErr == nil {
 			c.Fail("reader_error", "stream:error_from_nowhere", err, nil)
 		}
